@@ -1,2 +1,3 @@
-/- placeholder driver for C03: replaced when the check for C03 is built -/
-def main : IO Unit := IO.println "not-built"
+import CashewsVerif.Driver.Tx
+/- Driver for C03 (shared with C04): see CashewsVerif/Driver/Tx.lean for the protocol. -/
+def main : IO Unit := CashewsVerif.TxDriver.run
